@@ -169,6 +169,50 @@ class FactEngine(object):
             return r
         self.at, self.after = self.cfg.forward(frozenset(), transfer, meet, edge)
 
+    # -- per-path facts (for disjunctive guards); acyclic simple paths only
+    def path_facts(self, targets, cap=20000, history=False):
+        """One entry per simple path from entry to a node in targets: the frozenset of
+        facts that hold on arrival (history=False) or the pair (holding, ever
+        established along the path) (history=True)."""
+        tg = set(n.id for n in targets)
+        out = []
+        count = [0]
+
+        def step(n, fs, ever, onpath):
+            if count[0] > cap:
+                return
+            fs = self._apply_kills(fs, self.kills.get(n.id))
+            if n.id in tg:
+                out.append((fs, ever) if history else fs)
+                count[0] += 1
+                return
+            for (m, lab) in n.succs:
+                if m.id in onpath:
+                    continue
+                f2, e2 = fs, ever
+                new = None
+                if n.kind == 'cond' and lab in ('T', 'F') and n.info != 'range-for':
+                    new = set(self.cond_facts(n.ast, lab == 'T'))
+                elif n.kind == 'switch' and isinstance(lab, tuple):
+                    v = self.folder.fold(lab[1])
+                    if v is not None:
+                        new = {canon('==', self.key(n.ast), 'n:%d' % v)}
+                if new:
+                    f2 = frozenset(fs | new)
+                    e2 = frozenset(ever | new)
+                step(m, f2, e2, onpath | {m.id})
+        import sys
+        old = sys.getrecursionlimit()
+        sys.setrecursionlimit(max(old, 10000))
+        try:
+            step(self.cfg.entry, frozenset(), frozenset(), {self.cfg.entry.id})
+        finally:
+            sys.setrecursionlimit(old)
+        if count[0] > cap:
+            from .frontend import AnalysisBroken
+            raise AnalysisBroken('path enumeration exceeded %d paths in %s' % (cap, self.fn.get('name')))
+        return out
+
     # -- queries
     def facts_at(self, node):
         return self.at.get(node.id, frozenset())
